@@ -28,6 +28,7 @@ def gen(ctx):
     rep = tr_init.db_hypotheses(os.path.join(vlib.REPO, "nmea2000", "pgns.py"))
     ctx.extra_obligations.append({"name": "tr_init.db_hypotheses(pgns.py): decode_pgn_N builds PGN N; id isoAddressClaim "
                                           "<-> 60928; 60928 single-frame", "ok": rep["ok"], "detail": rep["detail"]})
+    H.obl_c10(ctx)
 
 
 def CORPUS():
